@@ -113,6 +113,39 @@ def bws_check(inp):
     return None
 
 
+def window_check(inp):
+    """the ASSUMED contract of get_first_window (contracts/continuum.py), clause by clause, on the real code"""
+    pa = pkg()
+    spec = inp["continuum"]
+    c = common.make_continuum(spec)
+    d = common.make_dissim(inp["dissim"])
+    before = {a: [(u.segment.start, u.segment.end, u.annotation) for u in c.iter_annotator(a)] for a in c.annotators}
+    try:
+        win, x_limit = c.get_first_window(d, inp["w"])
+    except Exception as ex:   # noqa
+        return fail("get_first_window returns (assumed contract)", inp, repr(ex), "a window")
+    if win is c or win._annotations is c._annotations or win._categories is c._categories:
+        return fail("assumed: the window is a fresh continuum sharing no state with its source", inp, "aliased", "fresh")
+    if list(win.annotators) != list(c.annotators):
+        return fail("assumed: the window has the same annotators in the same order", inp, list(win.annotators), list(c.annotators))
+    for a in win.annotators:
+        mine = [(u.segment.start, u.segment.end, u.annotation) for u in win.iter_annotator(a)]
+        if any(u not in before[a] for u in mine):
+            return fail("assumed: every unit of the window is a unit of the continuum, under the same annotator", inp, mine, before[a])
+        if len(mine) > len(before[a]):
+            return fail("assumed: no annotator has more units in the window than in the continuum", inp, len(mine), len(before[a]))
+        for (s_, e_, l_) in mine:
+            if not e_ - s_ > 1e-6 or not (win.bound_inf <= s_ and e_ <= win.bound_sup) or (l_ is not None and l_ not in win.categories):
+                return fail("assumed: the window satisfies the representation invariant", inp, (s_, e_, l_), "a valid unit within the bounds")
+    if not win:
+        return fail("assumed: the window of a non-empty continuum is not empty", inp, "empty", "at least one unit")
+    after = {a: [(u.segment.start, u.segment.end, u.annotation) for u in c.iter_annotator(a)] for a in c.annotators}
+    if after != before:
+        return fail("assumed: get_first_window does not modify the continuum", inp, after, before)
+    return None
+
+
+Oracle(CT + "Continuum.get_first_window#assumed-contract", cases, window_check)
 Oracle(CT + "Continuum.get_fast_alignment", cases, check)
 Oracle(CT + "Continuum.get_first_window", cases, check)
 Oracle(CT + "Continuum.measure_best_window_size", bws_cases, bws_check)
